@@ -6,11 +6,11 @@
     (wrappers/dataclass_wrapper.py:393-445, conflicts.py:317-354): which destinations the surviving
     wrapper ends up with, in which order, and which per-destination defaults it carries;
   * part B — the life of ONE field of the merged wrapper: `FieldWrapper.default` packaging
-    (field_wrapper.py:711-790), `required` (797-821), the argparse options of a reused field
-    (354-404: `nargs` `*`/`+`, `_parse_multiple_containers` for list/tuple fields, `str2bool`, enum
+    (field_wrapper.py:720-802), `required` (808-833), the argparse options of a reused field
+    (356-410: `nargs` `*`/`+`, `_parse_multiple_containers` for list/tuple fields, `str2bool`, enum
     choices and defaults by name), what argparse hands back for `k` tokens, `duplicate_if_needed`
-    (408-458), distribution by `zip(destinations, values)` and `postprocess` (460-535), and
-    `utils._parse_multiple_containers/_parse_container` (utils.py:617-691), `get_nesting_level`.
+    (414-464), distribution by `zip(destinations, values)` and `postprocess` (466-542), and
+    `utils._parse_multiple_containers/_parse_container` (utils.py:623-696), `get_nesting_level`.
 
   Tokens are structured (`Tok`): the harness renders them to the command-line strings, the model
   follows what `ast.literal_eval` / the fall-back splitter do on the rendered shapes.  Anything the
@@ -361,7 +361,7 @@ def parseTok (fty : FieldTy) (tok : Tok) : Res Val :=
   | .scalar t => parseScalarTok t tok
   | _ => parseContainerTok fty tok
 
-/-! ## `FieldWrapper.default` (field_wrapper.py:711-790) -/
+/-! ## `FieldWrapper.default` (field_wrapper.py:720-802) -/
 
 /-- where the un-packaged default comes from -/
 inductive DefaultSrc
@@ -396,7 +396,7 @@ def argDefault (fty : FieldTy) (packed : List Val) : List Val :=
       | v => v)
   | _ => packed
 
-/-! ## `duplicate_if_needed` (field_wrapper.py:408-458) -/
+/-! ## `duplicate_if_needed` (field_wrapper.py:414-464) -/
 
 /-- `utils.get_nesting_level` of one parsed item (strings are not containers) -/
 def Val.nesting : Val → Nat
@@ -439,14 +439,13 @@ def duplicate (fty : FieldTy) (n : Nat) (parsed : List Val) : Res (List Val) :=
       | [v] => .ok (List.replicate n v)                 -- `parsed_values * n`
       | _ => .error (.raise .inconsistentArgumentError)
 
-/-! ## `postprocess` (field_wrapper.py:460-535) -/
+/-! ## `postprocess` (field_wrapper.py:466-542) -/
 
-/- For a scalar enum field any value with `isinstance(v, str)` is looked up BY NAME (`self.type[v]`).
-   A member of a str-mixin Enum (`class Level(str, Enum)`) is such a str — equal to its VALUE — so
-   where the code looks a parsed value up (or iterates it with `tuple(v)`) such a member is
-   represented here as `.sc (.str value)`; `.sc (.enum nm)` stands for a member that is no `str`
-   (plain Enum, IntEnum), which passes through.  On the public path the values are always member
-   NAMES (tokens checked by `choices=`, defaults converted by `argDefault`). -/
+/- For a scalar enum field a value that is a `str` and NOT already a member is looked up by name
+   (`isinstance(v, str) and not isinstance(v, Enum)`, field_wrapper.py:482, since fix 69d4809: a member
+   of a str-mixin Enum is left alone like every other member).  `.sc (.enum nm)` is a member of any
+   kind of Enum; `.sc (.str s)` a plain string.  For a tuple field `tuple(v)` of a bare str-mixin
+   member iterates its VALUE: the harness hands such a bare item to the model as `.sc (.str value)`. -/
 def postprocess (fty : FieldTy) (v : Val) : Res Val :=
   match fty with
   | .scalar (.enum ms) =>
@@ -463,11 +462,12 @@ def postprocess (fty : FieldTy) (v : Val) : Res Val :=
     | .tuple l => .ok (.tuple l)
     | .list l => .ok (.tuple l)
     | .sc (.str s) => .ok (.tuple (s.map (fun c => Scalar.str [c])))   -- `tuple("ab")`
+    | .sc .none => .ok (.sc .none)                                        -- `None` is left alone (line 502)
     | .sc _ => .error (.raise .typeError)                                 -- `tuple(4)`
 
 /-! ## one field, end to end -/
 
-/-- `required` (field_wrapper.py:797-821) for the modelled fragment: no default ⇒ required -/
+/-- `required` (field_wrapper.py:808-833) for the modelled fragment: no default ⇒ required -/
 def isRequired (src : DefaultSrc) : Bool := (rawDefault src).isNone
 
 /-- set-up part (`arg_options`): the packaged default; `none` = `None` -/
